@@ -1068,9 +1068,11 @@ class BooleanExpression(Expression):
                 left = _str(expression.left, precedence)
                 right = _str(expression.right, precedence)
             elif isinstance(expression, LogicalNotExpression):
+                # The parser reads everything that follows `not` as its operand,
+                # so a nested `not` must be grouped to survive a round trip.
                 operand_str = _str(expression.expression, PRECEDENCE_PREFIX)
                 expr = f"not {operand_str}"
-                if parent_precedence > PRECEDENCE_PREFIX:
+                if parent_precedence > 0:
                     return f"({expr})"
                 return expr
             else:
